@@ -119,12 +119,8 @@ func runCLIMode(ctx context.Context, c *Case, m Mode, hcl bool, root string) (re
 	res.NChanges = len(changes)
 	res.PlanKinds = planKinds(ctx, client, changes)
 	client.Close()
-	// the model's input (as in the api stage): the CLI opens its transaction through sqlite.OpenTx
-	fkState, inTx := m.FK, m.Tx != "none"
-	if inTx {
-		fkState = false
-	}
-	res.TieCase, res.TieSkip = tieCase(ctx, before, cur, changes, fkState, inTx, -1)
+	// the model's input (as in the api stage)
+	res.TieCase, res.TieSkip = tieCase(ctx, before, cur, changes, m.FK, m.Tx, -1)
 	r := clirun.Run(dir, nil, args...)
 	var applyErr error
 	if r.Exit != 0 {
